@@ -42,6 +42,7 @@ GOOD = {
     "inet-address": ["host:80", "80", "[::1]:80", "Host.Example", "1.2.3.4:1", "[FE80::1:2]:8080", "FE80::A"],
     "null": ["anything", "x y"],
     "zcv.dt.evenint": ["2", "40", "-6"],
+    "zcv.dt.nested": ["2", "40", "-6"],
     "zcv.dtalt.evenint": ["3", "41", "-7"],
 }
 BAD = {
@@ -55,6 +56,7 @@ BAD = {
     "basic-key": ["1a", "_a", "a b"],
     "inet-address": ["host:99999", "host:x", "a b"],
     "zcv.dt.evenint": ["3", "x"],
+    "zcv.dt.nested": ["3", "x"],
     "zcv.dtalt.evenint": ["4", "x"],
 }
 # values that can only be written as the text of a <default> element (characters that the XML
